@@ -25,7 +25,8 @@ CONSTANT ProducerLookupNormalised  \* normative TRUE: the producer is looked up 
 (*            declared: Seq(Nat)    declared response codes; 0 stands for `default`                  *)
 (*            realm: STRING]        realm of the basic authenticator                                 *)
 (* request : [method, accept: <<>> (no header) | <<Seq([t, s, q])>>  q in tenths]                    *)
-(* outcome : [k \in "value" | "nil" | "responder" | "error", code, scripted]                         *)
+(* outcome : [k \in "value" | "nil" | "responder" | "libresponder" | "error", code, scripted]        *)
+(*           libresponder: middleware.Error(code, "payload", headers) / NotImplemented("payload")    *)
 (*           error: code = the status the error carries (0: none); scripted = the handler returned  *)
 (*           this very error object (otherwise an earlier stage produced an error with that code)   *)
 
@@ -109,6 +110,17 @@ AllowedResponder(c, rq, o) ==
      /\ o.given = << ProducerFor(c, f) >>                              \* "handed that same producer"
      /\ o.errs = <<>>
 
+\* the library's own Responders (middleware.Error / NotImplemented -> errorResp.WriteResponse): they write their
+\* status and let the producer they are handed encode their payload - so the producer handed is seen at work
+LibPayload == "payload"
+AllowedLibResponder(c, rq, out, o) ==
+  \E f \in Negotiated(c, rq) :
+     /\ o.ctype = Render(f)
+     /\ o.status = out.code
+     /\ o.produced = << [id |-> ProducerFor(c, f), val |-> LibPayload] >>       \* "handed that same producer"
+     /\ o.body = Marker(ProducerFor(c, f), LibPayload)
+     /\ o.errs = <<>> /\ o.given = <<>>
+
 \* errors: "the API's error responder is invoked with it (JSON content type if nothing was negotiated)"
 AllowedError(c, rq, out, o) ==
   /\ Len(o.errs) = 1 /\ o.produced = <<>> /\ o.given = <<>>
@@ -160,6 +172,10 @@ RespondModel(c, rq, out) ==
   LET f == Format(c, rq) IN
   CASE out.k = "responder" ->                                           \* data.(Responder)
          [NoObs EXCEPT !.ctype = Render(f), !.given = << FallbackDefault(c, Id(f)) >>]
+    [] out.k = "libresponder" ->                                        \* data.(Responder) = *errorResp
+         LET p == FallbackDefault(c, Id(f))
+         IN [NoObs EXCEPT !.status = out.code, !.ctype = Render(f),            \* errorResp.WriteResponse: WriteHeader(code); Produce
+                          !.produced = << [id |-> p, val |-> LibPayload] >>, !.body = Marker(p, LibPayload)]
     [] out.k = "error" ->                                               \* data.(error)
          [NoObs EXCEPT !.status = out.code, !.errs = << [code |-> out.code, same |-> TRUE,
                                     ctype |-> IF f = NoFormat THEN JSONMime ELSE Render(f)] >>]
